@@ -37,7 +37,7 @@ Do ==
        [] sel = 3 -> \E lt \in Near(N.ec), k \in Contents : Ev(lt, k)
        [] sel = 4 -> \E e \in Kind(1, M.rcv) : Ev(e[2], e[3])                       \* duplicate
        [] sel = 5 -> \E lt \in MsgT, id \in QIds, nb \in {0, 1}, flt \in {0, 1} : Qry(lt, id, nb, flt)
-       [] sel = 6 -> \E lt \in Near(N.qc), id \in QIds : Qry(lt, id, 0, 0)
+       [] sel = 6 -> \E lt \in { t \in MsgT : Pos(t) + N.bq + 1 >= Pos(N.qc) /\ Pos(t) <= Pos(N.qc) + N.bq + 1 }, id \in QIds : Qry(lt, id, 0, 0)
        [] sel = 7 -> \E e \in Kind(2, M.rcv), nb \in {0, 1} : e[3] < 100 /\ Qry(e[2], e[3], nb, 0)
        [] sel \in {8, 9} -> \E pp \in {RandPP}, f \in {RandomElement(Flags)} : Merge(pp, f[1], f[2])
        [] sel = 10 -> \E f \in Flags : Merge(OwnPP, f[1], f[2])
